@@ -267,7 +267,7 @@ def _resolve_one(job):
 
 
 def resolve_all(jobs):
-    n = int(os.environ.get("VERIF_PROCS", "0") or 0) or min(8, os.cpu_count() or 1)
+    n = int(os.environ.get("VERIF_PROCS", "0") or 0) or min(16, os.cpu_count() or 1)
     if n <= 1 or len(jobs) < 16:
         return [_resolve_one(j) for j in jobs]
     mp = multiprocessing.get_context("fork")
@@ -385,20 +385,34 @@ def run(ctx):
                 "resolve_dependencies (full_js=True; also full_js=False for parameter references; functions also via "
                 "expression_lib); a case is non-trivial when the expression reads a field or is a negative (shadowed/"
                 "mention-only) case")
+    # development aid only (never set by the registered commands): reuse the TLC output of a previous run
+    cache = os.environ.get("VERIF_C31_MODEL_CACHE")
+    if cache and os.path.exists(cache) and json.load(open(cache))["level"] == level:
+        gen = json.load(open(cache))
+        ctx.assumptions.append("DEVELOPMENT RUN: TLC output reused from %s" % cache)
+        ctx.states += len(gen["cases"])
+        return _bind(ctx, gen)
     wd = ctx.spec_workdir("ExprDeps")
     cfg = open(os.path.join(wd, "MC_ExprDeps.cfg")).read().replace("LEVEL = 1", "LEVEL = %d" % level)
-    r = ctx.tlc("ExprDeps", "MC_ExprDeps", "MC_ExprDeps.cfg", workdir=wd, files={"MC_ExprDeps.cfg": cfg}, timeout=1500)
+    r = ctx.tlc("ExprDeps", "MC_ExprDeps", "MC_ExprDeps.cfg", workdir=wd, files={"MC_ExprDeps.cfg": cfg}, timeout=ctx.pick(1500, 5400))
     # a law of the specification failing is a specification error, not a verdict on the code
     ctx.require(r.ok, "ExprDeps law %s fails in the model: %s" % (r.violated, (r.trace or [{}])[0]))
     out = os.path.join(wd, "cases.json")
     gcfg = open(os.path.join(wd, "Gen_ExprDeps.cfg")).read().replace("LEVEL = 1", "LEVEL = %d" % level)
     g = ctx.tlc("ExprDeps", "Gen_ExprDeps", "Gen_ExprDeps.cfg", workdir=wd, files={"Gen_ExprDeps.cfg": gcfg},
-                env={"OUT_FILE": out}, workers=1, count=False, timeout=1500)
+                env={"OUT_FILE": out}, workers=1, count=False, timeout=ctx.pick(1500, 5400))
     ctx.require(g.ok and os.path.exists(out), "Gen_ExprDeps failed: %s" % g.stdout[-800:])
     with open(out) as f:
         gen = json.load(f)
+    ctx.require(len(gen["cases"]) == r.distinct, "generation emitted %d cases, the model check saw %d" % (len(gen["cases"]), r.distinct))
+    if cache:
+        with open(cache, "w") as f:
+            json.dump(dict(gen, level=level), f)
+    _bind(ctx, gen)
+
+
+def _bind(ctx, gen):
     heap, cases = gen["heap"], gen["cases"]
-    ctx.require(len(cases) == r.distinct, "generation emitted %d cases, the model check saw %d" % (len(cases), r.distinct))
     ctx.require(len(cases) >= 1000, "family too small: %d" % len(cases))
     ctx.require(all(c["ok"] and c["sup"] for c in cases), "family contains expressions outside the fragment")
     cases.sort(key=lambda c: json.dumps(c["e"], sort_keys=True))
